@@ -10,7 +10,7 @@ from .common import Vals, Stubs, real_env, I, cls_name
 
 MANIFEST_ENTRY = {
     'category': 'proof',
-    'text': 'contains, starts_with, ends_with, find, `in`, length, concatenation, trim/upper/lower, chr/ord and escape_pattern are proved to apply the corresponding z3 string-theory operation to the raw string payloads for all strings, and the mutual-consistency laws (contains iff find >= 0 iff s = a+t+b, starts_with/ends_with vs. prefix/suffix, |s+t| = |s|+|t|, ord(chr(n)) = n) are z3 lemmas over those specs; split/join, replace, reverse, lines/words, s/sprintf (regex-based or written in Checkerlang) are covered by bounded runtime contracts on the real interpreter; the padding loop of s() (extracted from the real FuncS.execute on every run) leaves the rendered value intact and pads it on the stated side with the stated fill character to exactly max(len, width) characters, for all texts and widths; replace on strings with thousands of occurrences and with a start index (bounded)',
+    'text': 'contains, starts_with, ends_with, find, `in`, length, concatenation, trim/upper/lower, chr/ord and escape_pattern are proved to apply the corresponding z3 string-theory operation to the raw string payloads for all strings, and the mutual-consistency laws (contains iff find >= 0 iff s = a+t+b, starts_with/ends_with vs. prefix/suffix, |s+t| = |s|+|t|, ord(chr(n)) = n) are z3 lemmas over those specs; split/join, replace, reverse, lines/words, s/sprintf (regex-based or written in Checkerlang) are covered by bounded runtime contracts on the real interpreter; the padding loop of s() (extracted from the real FuncS.execute on every run) leaves the rendered value intact and pads it on the stated side with the stated fill character to exactly max(len, width) characters, for all texts and widths; replace on strings with thousands of occurrences and with a start index (bounded); reverse (and its involution), join and replace of string.ckl are decided on the module\'s real AST for strings of <= 3 arbitrary characters / lists of <= 3 arbitrary strings (symbolic-bounded in the length)',
     'note': "str.find/startswith/endswith/strip/upper/lower of CPython assumed (idempotence of case mapping and trimming is the host's); regex and Checkerlang-defined functions bounded only",
     'technique': 'deductive verification: pyvc VCs from the real AST + z3/cvc5 string theory; bounded runtime contracts for regex/CKL functions',
 }
@@ -242,6 +242,92 @@ def units(w):
     U.append(Unit("functions.py::FuncS.execute", s_pad, p_pad, name="functions.py::FuncS.execute#loop1[padding loop, extracted]", body=b_pad, allowed=(),
                   loops={"FuncS.execute": {1: Loop(pad_inv, decreases=lambda st: mk_int(zi(st["width"]) - z3.Length(zs(st["value"]))))}},
                   config={"prefer": "cvc5"}, replay=replay_pairs))
+    # ---- string functions written in Checkerlang (string.ckl) on the module's real AST (contracts/cklsym.py): strings of a fixed
+    #      length <= 3 with arbitrary characters, lists of <= 3 arbitrary strings - the loops of the interpreted functions run over
+    #      a known number of characters / elements, the contents are symbolic
+    import sys as _sys
+    from . import cklsym
+
+    def session_call(it, text, bindings):
+        I_ = cklsym.native_session(("String", "List"))
+        R = cklsym.Reflector(w)
+        R.seed_singletons(_sys.modules["ckl.values"])
+        env = R.reflect(I_.environment)
+        call = R.reflect(_sys.modules["ckl.parser"].parse_script(text, "unit"))
+        return it.call(w.func(f"nodes.py::{cls_name(call)}.evaluate"), [call, real_env(w, it, bindings, parent=env)])
+
+    def str_unit(fname, text, mk, spec, label):
+        def setup(it):
+            binds, ctx = mk(it)
+            it.ghost["res"] = session_call(it, text, binds)
+            it.ghost["ctx"] = ctx
+            return [], {}, {}
+
+        def post(it, c, o):
+            r = it.ghost["res"]
+            it.check("post:returns-a-string", cls_name(r) == "ValueString")
+            if cls_name(r) == "ValueString":
+                it.check("post:equals-the-definition-for-every-choice-of-characters", zs(r.fields["value"]) == spec(it.ghost["ctx"]))
+        return Unit("nodes.py::invoke", setup, post, body=lambda it, c: Outcome("return", None), name=f"string.ckl::{fname}[real module source, {label}]",
+                    bounded="strings of length <= 3 / lists of <= 3 strings (contents symbolic)", replay=replay_lang_c18)
+
+    def mk_str(n):
+        def mk(it):
+            sv = V.string(it, "s")
+            it.assume(z3.Length(zs(sv.fields["value"])) == n)
+            return {"s": sv}, zs(sv.fields["value"])
+        return mk
+
+    def rev_spec(z, n):
+        out = z3.StringVal("")
+        for i in range(n - 1, -1, -1):
+            out = z3.Concat(out, z3.SubString(z, i, 1))
+        return out
+    for n in (0, 1, 2, 3):
+        U.append(str_unit("reverse", "String->reverse(s)", mk_str(n), lambda z, n=n: rev_spec(z, n), f"{n} characters"))
+        U.append(str_unit("reverse", "String->reverse(String->reverse(s))", mk_str(n), lambda z: z, f"involution, {n} characters"))
+
+    def mk_join(n):
+        def mk(it):
+            parts = [V.string(it, f"p{i}") for i in range(n)]
+            sep = V.string(it, "sep")
+            return {"l": V.list_of(it, parts, "l"), "sep": sep}, ([zs(p_.fields["value"]) for p_ in parts], zs(sep.fields["value"]))
+        return mk
+
+    def join_spec(ctx):
+        parts, sep = ctx
+        out = z3.StringVal("")
+        for i, p_ in enumerate(parts):
+            out = z3.Concat(out, sep, p_) if i else z3.Concat(out, p_)
+        return out
+    for n in (0, 1, 2, 3):
+        U.append(str_unit("join", "String->join(l, sep)", mk_join(n), join_spec, f"{n} strings"))
+
+    # replace: every non-overlapping occurrence, left to right (subject of n characters, pattern of 1 or 2 characters, any replacement)
+    def mk_repl(n, m):
+        def mk(it):
+            sv, av, bv = V.string(it, "s"), V.string(it, "a"), V.string(it, "b")
+            it.assume(z3.Length(zs(sv.fields["value"])) == n)
+            it.assume(z3.Length(zs(av.fields["value"])) == m)
+            return {"s": sv, "a": av, "b": bv}, (zs(sv.fields["value"]), zs(av.fields["value"]), zs(bv.fields["value"]))
+        return mk
+
+    def repl_spec(n, m):
+        def spec(ctx):
+            z, a, b = ctx
+
+            def go(i):
+                if i >= n:
+                    return z3.StringVal("")
+                if i + m <= n:
+                    return z3.If(z3.SubString(z, i, m) == a, z3.Concat(b, go(i + m)), z3.Concat(z3.SubString(z, i, 1), go(i + 1)))
+                return z3.Concat(z3.SubString(z, i, 1), go(i + 1))
+            return go(0)
+        return spec
+    for n, m in ((0, 1), (1, 1), (2, 1), (3, 1), (2, 2), (3, 2)):
+        U.append(str_unit("replace", "String->replace(s, a, b)", mk_repl(n, m), repl_spec(n, m), f"subject of {n}, pattern of {m} characters"))
+        U[-1].thorough_only = n == 3      # (string solving: up to two minutes)
+
     return U
 
 
@@ -295,6 +381,15 @@ def replay_pairs(fail):
         r = R.run(src)
         if not (r[0] == "ok" and r[1] == exp and type(r[1]) is type(exp)):
             return {"reproduced": True, "input": src, "observed": f"{r[0]}: {r[1]!r}", "expected": repr(exp)}
+    return {"reproduced": False}
+
+
+def replay_lang_c18(fail):
+    for b in bounded("quick", 0):
+        if b.failures:
+            f = dict(b.failures[0])
+            f["reproduced"] = True
+            return f
     return {"reproduced": False}
 
 
